@@ -5,6 +5,7 @@ import Depccg.OpsXml
 import Depccg.Print.More
 import Depccg.Print.Html
 import Depccg.GlueTree
+import Depccg.GlueRun
 
 namespace Depccg
 namespace OpsMore
@@ -119,6 +120,68 @@ def retrieveOp (ts : List String) : String :=
     else none) with
   | some r => encExcept encTree r
   | none => "bad-op"
+
+
+/-! ### `gluetable`: the callback side of `run` replayed on a recorded sequence of rule-function
+calls (categories and result lists as the real functions returned them) -/
+
+def pRes : P RuleRes := fun ts => do
+  let (c, ts) ← pCat ts; let (h, ts) ← pNat ts; let (s, ts) ← pStr ts; let (y, ts) ← pStr ts
+  pure (⟨c, s, y, h != 0⟩, ts)
+
+inductive RCall where
+  | bin (x y : Cat) (rs : List RuleRes)
+  | un (x : Cat) (rs : List RuleRes)
+
+def pRCall : P RCall
+  | "b" :: ts => do
+    let (x, ts) ← pCat ts; let (y, ts) ← pCat ts; let (rs, ts) ← pList pRes ts; pure (.bin x y rs, ts)
+  | "u" :: ts => do
+    let (x, ts) ← pCat ts; let (rs, ts) ← pList pRes ts; pure (.un x rs, ts)
+  | _ => none
+
+/-- the rule functions, as far as the recording knows them -/
+def recorded (calls : List RCall) : GlueRun.CatGrammar :=
+  { bin := fun cx cy => match calls.find? fun c => match c with | .bin x y _ => x == cx && y == cy | _ => false with
+      | some (.bin _ _ rs) => rs | _ => [],
+    un := fun cx => match calls.find? fun c => match c with | .un x _ => x == cx | _ => false with
+      | some (.un _ rs) => rs | _ => [] }
+
+def encIds (l : List Nat) : String := toString l.length ++ String.join (l.map fun i => " " ++ toString i)
+
+/-- replay; every call's categories must already be in the table (they are: the search only asks
+    about ids it holds) -/
+def gluetableOp (ts : List String) : String :=
+  match (do
+    let (cats, ts) ← pList pCat ts
+    let (roots, ts) ← pList pCat ts
+    let (calls, ts) ← pList pRCall ts
+    if ts.isEmpty then pure (cats, roots, calls) else none) with
+  | none => "bad-op"
+  | some (cats, roots, calls) =>
+    let G := recorded calls
+    let st0 := GlueRun.init cats roots
+    let rootIds := (GlueRun.addRoots cats roots).2
+    let rec go (st : GlueRun.GSt) (cs : List RCall) (acc : List String) : Option (GlueRun.GSt × List String) :=
+      match cs with
+      | [] => some (st, acc.reverse)
+      | .bin x y _ :: rest =>
+        if x ∈ st.cats ∧ y ∈ st.cats then
+          let i := st.cats.idxOf x; let j := st.cats.idxOf y
+          let st' := GlueRun.binCall G st i j
+          go st' rest (("b " ++ toString i ++ " " ++ toString j ++ " " ++ encIds (((GlueRun.binRow st' i j).getD []).map (·.catId))) :: acc)
+        else none
+      | .un x _ :: rest =>
+        if x ∈ st.cats then
+          let i := st.cats.idxOf x
+          let st' := GlueRun.unCall G st i
+          go st' rest (("u " ++ toString i ++ " " ++ encIds (((GlueRun.unRow st' i).getD []).map (·.catId))) :: acc)
+        else none
+    match go st0 calls [] with
+    | none => "err unknown-category"
+    | some (st, rows) =>
+      "ok " ++ toString st.cats.length ++ String.join (st.cats.map fun c => " " ++ encCat c) ++ " " ++ encIds rootIds ++
+        " " ++ toString rows.length ++ String.join (rows.map fun r => " " ++ r)
 
 end OpsMore
 end Depccg
